@@ -450,7 +450,9 @@ class Message:
         if size > MAX_MEMORY_SIZE:
             raise OutOfGasError(f"calldata read {start=} {size=} > MAX_MEMORY_SIZE")
 
-        return self.data.slice(start=start, stop=start + size)
+        # calldata is empty in a contract creation context (message.data holds the init code)
+        data = ByteVec() if self.is_create() else self.data
+        return data.slice(start=start, stop=start + size)
 
 
 @dataclass(frozen=False, slots=True, eq=False, order=False)
